@@ -500,6 +500,8 @@ class ReadOnlyIndexedFieldArray:
             step = item.step
             # TODO: validate slice
             index = self._indices[start:stop + 1]
+            if len(index) == 0:
+                return []
             bytestr = self._values[index[0]:index[-1]]
             results = [None] * (len(index) - 1)
             startindex = self._indices[start]
